@@ -436,6 +436,16 @@ class NP:
     absolute = abs
     def floor(self, x): return _elementwise(lambda v: v.floor() if isinstance(v, SV) else v, _np.floor)(x)
     def ceil(self, x): return _elementwise(lambda v: v.ceil() if isinstance(v, SV) else v, _np.ceil)(x)
+    def round(self, x, decimals=0, **k):
+        # numpy rounds halves to even (like Python's round); only whole-number rounding of symbolic values is modelled
+        if _has_sym(x) or isinstance(x, (GVec, RowArr)):
+            if decimals != 0 or k:
+                raise Unsupported("np.round with decimals on symbolic data")
+            return _elementwise(lambda v: SV(sym.real(to_z3(sym.pyround(v, None)))) if isinstance(v, SV) else float(round(v)), _np.round)(x)
+        return _np.round(x, decimals, **k)
+    around = round
+    def rint(self, x):
+        return self.round(x)
     def square(self, x): return _elementwise(lambda v: v * v, _np.square)(x)
     def logical_not(self, x): return _elementwise(sym.s_not, _np.logical_not)(x)
     def arctan2(self, y, x):
